@@ -10,7 +10,8 @@
    Con: one burst of concurrent Connect calls issued from a quiescent state (player on server 0,
    3 healthy backends), every call with its result and logical-clock interval, and the final
    observation.  Base/Lin.v searches and validates a linearization against the atomic specification
-   Switch.lin_step; a burst without one falsifies the property (two attempts at once, a refusal with a
+   Switch.lin_step, after the direct check that no two backend connections of the burst were being
+   logged in at the same time; a burst failing either falsifies the property (two attempts at once, a refusal with a
    side effect, or an inconsistent final state). *)
 From Coq Require Import List Arith Bool ZArith.
 From Verif Require Import Base.Verdict Base.Lin Model.Switch.
@@ -21,7 +22,9 @@ Record req := mkReq { q_t : nat; q_res : res; q_inv : Z; q_ret : Z }.
 Inductive case :=
 | Seq (f : family) (n : nat) (stall : option nat) (try : list nat) (scr : list (list behaviour))
       (ops : list op) (observed : list obs)
-| Con (f : family) (calls : list req) (final : obs).
+| Con (f : family) (calls : list req) (attempts : list (Z * Z)) (final : obs).
+  (* attempts: for every backend connection opened during the burst, the interval (logical stamps from
+     the backends' clocks) from its acceptance to the moment JoinGame was sent (or it ended) *)
 
 Definition judge_seq f n try scr ops observed : verdict :=
   let e := mkEnv f try scr in
@@ -63,14 +66,23 @@ Fixpoint two_started_overlap (qs : list req) : bool :=
   | q :: r => (started q && existsb (fun x => started x && overlap q x) r) || two_started_overlap r
   end.
 
-Definition judge_con f calls final : verdict :=
+(* at most one connection attempt in flight: no two backend connections of the burst were in their
+   login phase at the same time *)
+Fixpoint disjoint (l : list (Z * Z)) : bool :=
+  match l with
+  | [] => true
+  | (a, b) :: r => forallb (fun x => (b <? fst x)%Z || (snd x <? a)%Z) r && disjoint r
+  end.
+
+Definition judge_con f calls attempts final : verdict :=
   let e := mkEnv f [0] [] in
   let h := history_of calls final in
-  if check_history (lin_step e) lres_eqb (S (length h)) start_state h then VOk
+  if negb (disjoint attempts) then VViolation
+  else if check_history (lin_step e) lres_eqb (S (length h)) start_state h then VOk
   else VViolation.
 
 Definition judge (c : case) : verdict :=
   match c with
   | Seq f n _ try scr ops observed => judge_seq f n try scr ops observed
-  | Con f calls final => judge_con f calls final
+  | Con f calls attempts final => judge_con f calls attempts final
   end.
